@@ -1165,10 +1165,10 @@ def _where(case, path):
     idx = _model_path_to_spec(case, path)
     if idx is None:
         return "ui-node"
+    if any(len(idx) > len(p) and idx[:len(p)] == p for p in bv):
+        return "inside-byvalue-comp"
     if idx in bv:
         return "byvalue-comp"
-    if any(idx[:len(p)] == p for p in bv):
-        return "inside-byvalue-comp"
     if any(p[:len(idx)] == idx for p in bv):
         return "ancestor-of-byvalue-comp"
     if any(p[:-1] == idx[:-1] for p in bv):
